@@ -106,6 +106,9 @@ def run(ctx):
     wlevels.translate_skip(ctx)
     ctx.coq_file(os.path.join(C.COQ, "props", "C01.v"))
     ctx.coq_file(os.path.join(C.COQ, "props", "C01_pages.v"))
+    if os.path.exists(os.path.join(C.COQ, "props", "C01_chunk.v")):
+        # chunk level: reader model (incl. the selfmade shortcuts) applied to the writer model's chunk = the column
+        ctx.coq_file(os.path.join(C.COQ, "props", "C01_chunk.v"))
     bad = C.hygiene()
     ctx.obligation("hygiene: no Admitted/Axiom/Parameter/... in coq/", not bad, "; ".join(bad))
     C.shadow()
